@@ -17,6 +17,7 @@ import (
 )
 
 var key = bytes.Repeat([]byte{0x5a}, 32)
+var key2 = bytes.Repeat([]byte{0xc3}, 32)
 
 type desc struct {
 	Case ss.Case `json:"case"`
@@ -170,7 +171,7 @@ func gen(c *core.Ctx) error {
 	ivs := map[string]bool{}
 	for _, pa := range pres {
 		for _, pb := range pres {
-			for variant := 0; variant < 6; variant++ {
+			for variant := 0; variant < 8; variant++ {
 				k++
 				su := ss.Setup{Kind: "keyed", Key: key, PreAB: pa, PreBA: pb, ReadMax: []int{0, 2, 0, 11}[len(pa)%4], Ctx: len(pb)%2 == 1}
 				var steps []ss.Step
@@ -197,6 +198,20 @@ func gen(c *core.Ctx) error {
 						ms = append(ms, direct(i))
 					}
 					steps = []ss.Step{phase(true, api, ms...), phase(false, api, direct(1))}
+				case 6: // an oversize send is refused (before and after the first protected frame) and must cost nothing
+					if c.Quick() && (len(pa)+2*len(pb))%2 == 1 {
+						continue
+					}
+					big := ss.Step{Kind: "phase", ASends: true, SOps: direct(1<<20 + 1 + k%7).SOps()}
+					bigB := ss.Step{Kind: "phase", ASends: false, SOps: direct(1<<20 + 17).SOps()}
+					steps = []ss.Step{big, phase(true, api, direct(4)), phase(false, api, direct(2)), bigB, big, phase(false, api, direct(3)), phase(true, api, direct(2, 1))}
+				case 7: // the key is installed a second time (same key, or another one): counters restart under NEW base IVs
+					rk := ss.Step{Kind: "rekey"}
+					if k%3 == 0 {
+						rk.Key = key2
+					}
+					steps = []ss.Step{phase(true, api, direct(5)), phase(false, api, direct(3), direct(1)), rk,
+						phase(true, api, direct(6), direct(0)), phase(false, api, direct(2)), {Kind: "rekey"}, phase(false, api, direct(2)), phase(true, api, direct(9))}
 				case 5: // secret on an encrypting stream (no-op toggle)
 					steps = []ss.Step{{Kind: "phase", ASends: true, SOps: secret(3).SOps(), ROps: []ss.ROp{{Op: "complete"}}}, phase(false, api, direct(2)), phase(true, api, direct(2))}
 				}
@@ -208,7 +223,7 @@ func gen(c *core.Ctx) error {
 					if err := check(d, obs); err != nil {
 						c.OracleFail("format", err.Error(), d)
 					}
-					for _, iv := range [][]byte{obs.IVA, obs.IVB} {
+					for _, iv := range append([][]byte{obs.IVA, obs.IVB}, obs.MoreIVs...) {
 						if ivs[string(iv)] {
 							c.OracleFail("iv-repeat", "a base IV was drawn twice in one run", d)
 						}
